@@ -23,9 +23,15 @@
    and R factors, the basis-change matrix (its diagram is the separate program `bc_diagram` below).
    Not modelled here: the SandwichCache (Sched/BUG.v), the truncation (C10) and the canonical_form after it
    (C03).  Accesses on the re-centred copies and on parent_state only change raw layouts of those copies;
-   the model reads them through `vlogical`. *)
+   the model reads them through `vlogical`.
+   Also here: `dtree_of` / `shapes_agree` (the shapes of a store in the vocabulary of Sched/BUG.v's rank
+   arithmetic, and the per-instance agreement of the two models), `bc_diagram` / `bc_okb` (the basis-change
+   matrix of a node as the block recursion of Contr/Blocks.v between the old bases and the conjugated new
+   bases, and the hypothesis checker of its diagram theorem), `bug_case` / `bc_case` (what the harness
+   evaluates per explored step). *)
 From Coq Require Import List Arith Bool.
 From PTN Require Import TTN.Store TTN.Canon TTN.Inv Tree.RTree Contr.Blocks.
+From PTN Require Sched.BUG Contr.Closed.
 Import ListNotations.
 
 (* ---- views ------------------------------------------------------------------------------------------ *)
@@ -450,11 +456,86 @@ Definition bug_observe (cs : cstore) :=
    match root (fst cs) with Some r => [r] | None => [] end,
    match snd cs with Some c => [c] | None => [] end).
 
+(* ---- shapes: the view of a store that Sched/BUG.v's rank arithmetic works on ---------------------------------- *)
+(* a node: identifier, dimension of the parent leg (1 at the root), product of the open dimensions, children in
+   the order of t *)
+Fixpoint dtree_of (g : store) (t : rtree) {struct t} : BUG.dtree :=
+  match t with
+  | RNode n kids =>
+      match aget n (nodes g) with
+      | Some nd =>
+          let sh := node_shape nd in
+          BUG.DNode n (if is_root nd then 1 else nth 0 sh 0) (prod_list (skipn (nvirt nd) sh)) (map (dtree_of g) kids)
+      | None => BUG.DNode n 0 0 []
+      end
+  end.
+
+Fixpoint dtree_eqb (a b : BUG.dtree) {struct a} : bool :=
+  match a, b with
+  | BUG.DNode i r d cs, BUG.DNode i' r' d' cs' =>
+      Nat.eqb i i' && Nat.eqb r r' && Nat.eqb d d' && BUG.forall2b dtree_eqb cs cs'
+  end.
+
+(* the rank arithmetic of Sched/BUG.v (shape_root) predicts exactly the shapes of the store model's result *)
+Definition shapes_agree (fixed : bool) (t : rtree) (g g' : store) : bool :=
+  match BUG.shape_root fixed (dtree_of g t) with
+  | Some d => dtree_eqb d (dtree_of g' t)
+  | None => false
+  end.
+
+(* ---- the basis-change matrices as diagrams ---------------------------------------------------------------------- *)
+(* compute_basis_change_tensor(node_old, node_new, tensor_old, tensor_new.conj(), cache of the children's matrices)
+   = contract_any_nodes(parent, ...) = contract_leafs / contract_subtrees_using_dictionary, i.e. the block
+   recursion Blocks.block_two of contract_two_ttns between the state of OLD bases (the ket: below the centre the
+   parent_state still holds the caller's tensors) and the conjugated copy of the state of NEW bases (the bra; the
+   conjugated copy gets offset wires and atoms as in Contr/Blocks.v, so the diagram records which open leg met
+   which).  The children's matrices are the recursive calls (the code caches them).  update_leaf_node's
+   tensordot(old, new.conj(), ([1],[1])) is the leaf case. *)
+Definition conj_sarr (woff aoff : nat) (t : sarr) : sarr :=
+  {| axes := map (Nat.add woff) (axes t); atoms := map (Nat.add aoff) (atoms t); bnd := map (Nat.add woff) (bnd t) |}.
+Definition conj_store (woff aoff : nat) (s : store) : store :=
+  upd_tensors s (map (fun kt => (fst kt, conj_sarr woff aoff (snd kt)))).
+
+Definition bc_diagram (woff aoff : nat) (old new : store) (n p : id) : option garr :=
+  block_two (length (nodes old)) old (conj_store woff aoff new) n p.
+
+(* hypothesis checker of the diagram theorem for the matrix of node n: the subtree of n in the old state (in its own
+   child order) and in the new state (any child order) is a consistent pair of states with one open leg per node *)
+Definition bc_okb (woff aoff : nat) (old new : store) (n : id) : bool :=
+  match aget n (nodes old) with
+  | Some nd =>
+      match parent nd, Closed.tree_of (S (length (nodes old))) old n with
+      | Some p, Some t =>
+          Closed.wf_subb old (conj_store woff aoff new) (Some p) t
+          && Nat.leb (length (Closed.rnodes t)) (length (nodes old))
+      | _, _ => false
+      end
+  | None => false
+  end.
+
+(* all non-root nodes *)
+Definition bc_all_okb (woff aoff : nat) (old new : store) : bool :=
+  forallb (fun kn => if is_root (snd kn) then true else bc_okb woff aoff old new (fst kn)) (nodes old).
+
 (* one explored instance: the literal of the caller's state must be a well-formed store; the step; the
-   observation of the returned state, its isometry check and its well-formedness *)
-Definition bug_case (fixed : bool) (bcoff : nat) (rid : id) (t : rtree) (cs : cstore) :=
+   observation of the returned state, its isometry check, its well-formedness, agreement with Sched/BUG.v's shapes *)
+Definition bug_case (fixed : bool) (bcoff : nat) (rid : id) (woff aoff : nat) (t : rtree) (cs : cstore) :=
   (wfb (fst cs),
    match root_update fixed bcoff rid t cs with
-   | Some cs' => Some (bug_observe cs', iso_check cs', wfb (fst cs'))
+   | Some cs' => Some (bug_observe cs', iso_check cs', wfb (fst cs'), shapes_agree fixed t (fst cs) (fst cs'),
+                       bc_all_okb woff aoff (fst cs) (fst cs'))
    | None => None
    end).
+
+(* the diagrams of all basis-change matrices of one explored instance (value-level tie): per non-root node the
+   summary (axes, atoms, bound wires, glued pairs) of its matrix, and the tensors of the returned store *)
+Definition bc_values (woff aoff : nat) (old new : store) :=
+  map (fun kn => (fst kn, match parent (snd kn) with
+                          | Some p => option_map summary (bc_diagram woff aoff old new (fst kn) p)
+                          | None => None
+                          end)) (nodes old).
+Definition bc_case (fixed : bool) (bcoff : nat) (rid : id) (woff aoff : nat) (t : rtree) (cs : cstore) :=
+  match root_update fixed bcoff rid t cs with
+  | Some cs' => Some (map obs_tensor (tensors (fst cs')), bc_values woff aoff (fst cs) (fst cs'))
+  | None => None
+  end.
